@@ -1095,7 +1095,7 @@ pub(super) fn load_sheet<R: Read + std::io::Seek>(
                         match formula_ref {
                             Some(_) => {
                                 // It's the anchor cell. We do not use the ref attribute in IronCalc
-                                let formula = formula_node.text().unwrap_or("").to_string();
+                                let formula = decode_xlsx_escapes(formula_node.text().unwrap_or(""));
                                 let context = format!("{sheet_name}!{cell_ref}");
                                 let formula = from_a1_to_rc(
                                     formula,
@@ -1179,7 +1179,7 @@ pub(super) fn load_sheet<R: Read + std::io::Seek>(
                             array_kind =
                                 CellArrayKind::ArrayFormula(column2 - column1 + 1, row2 - row1 + 1);
                         }
-                        let formula = formula_node.text().unwrap_or("").to_string();
+                        let formula = decode_xlsx_escapes(formula_node.text().unwrap_or(""));
                         let context = format!("{sheet_name}!{cell_ref}");
                         let formula = from_a1_to_rc(
                             formula,
@@ -1200,7 +1200,7 @@ pub(super) fn load_sheet<R: Read + std::io::Seek>(
                     }
                     "normal" => {
                         // Its a cell with a simple formula
-                        let formula = formula_node.text().unwrap_or("").to_string();
+                        let formula = decode_xlsx_escapes(formula_node.text().unwrap_or(""));
                         let context = format!("{sheet_name}!{cell_ref}");
                         let formula = from_a1_to_rc(
                             formula,
